@@ -396,7 +396,7 @@ def _dispatch(j):
 
 
 def run(tier, seed):
-    n = 144 if tier == "quick" else 1800
+    n = 144 if tier == "quick" else 600
     jobs = [(job, (seed, i, tier)) for i in range(n)] + [(directed_job, None)]
     res = Result()
     for r in core.pmap(_dispatch, jobs):
